@@ -885,7 +885,8 @@ impl Translate for RecursivePageTable<'_> {
             Err(AddressNotAligned) => return TranslateResult::InvalidFrameAddress(p1_entry.addr()),
         };
         let offset = u64::from(addr.page_offset());
-        let flags = p1_entry.flags();
+        // bit 12 of a level 1 entry is part of the frame address, not `PAT_HUGE_PAGE`
+        let flags = p1_entry.flags() & !PageTableFlags::PAT_HUGE_PAGE;
         TranslateResult::Mapped {
             frame: MappedFrame::Size4KiB(frame),
             offset,
